@@ -198,6 +198,66 @@ def run(ctx):
                            % (q_, ', '.join(off), 'math delimiter' if 'enable_math' in off else 'delimiter'),
                            construct='%s: %s' % (q_, ', '.join(off)))
 
+    # ---- R05i: token fields are always there
+    ctx.rule('R05i', 'LatexToken.__init__ assigns every field it takes as a parameter (tok, arg, pos, pos_end, '
+                     'pre_space, post_space) on every path: error paths read fields of tokens of any kind', 6)
+    tkm = repo.mod('pylatexenc.latexnodes._token')
+    tki = tkm.methods('LatexToken').get('__init__')
+    if tki is None:
+        raise AnalysisError('anchor vanished: LatexToken.__init__')
+    tparams = [a.arg for a in tki.args.args[1:]]
+    try:
+        tcases = [c for c in symex.Walker(want_exits=True, track_attrs=tuple('self.' + p for p in tparams)).run_block(tki.body)
+                  if c.kind in ('end', 'return')]
+    except symex.TooManyPaths:
+        tcases = []
+    for p_ in tparams:
+        missing = [c for c in tcases if ('self.' + p_) not in c.env]
+        ctx.decide('R05i', bool(tcases) and not missing, tkm, tki,
+                   'self.%s is assigned on every path of LatexToken.__init__' % p_,
+                   'LatexToken.__init__ leaves self.%s unassigned on the path [%s]: code that reads the field of such a '
+                   'token (the error path for a math delimiter where an argument is expected reads tok.post_space) raises '
+                   'AttributeError instead of a parse error'
+                   % (p_, ' & '.join(missing[0].cond_src())[:120] if missing else ''),
+                   construct='LatexToken.__init__: field ' + p_)
+
+    # ---- R05j: tokens are read where the end of the input is handled
+    ctx.rule('R05j', 'outside the token reader classes a token is read (peek_token / next_token) only inside a handler '
+                     'for the end of the input: LatexWalkerEndOfStream leaving a parser is taken by parse_content() for '
+                     'the normal end of the content, so a construct that is still open is accepted', 4)
+    EOS_REVIEWED = {'LatexDelimitedExpressionParserInfo.parse_initial':
+                    'end of input while looking for an opening delimiter: the caller chain reports the missing argument'}
+    for mod_ in sorted(repo.modules.values(), key=lambda m_: m_.name):
+        if not (mod_.name.startswith('pylatexenc.latexnodes') or mod_.name.startswith('pylatexenc.macrospec')):
+            continue
+        for q_, f_ in sorted(mod_.functions.items()):
+            if 'TokenReader' in q_.split('.')[0]:
+                continue
+            for c_ in iter_own(f_):
+                if not (isinstance(c_, ast.Call) and call_name(c_) in ('peek_token', 'next_token')
+                        and call_recv(c_) is not None and 'reader' in unparse(call_recv(c_))):
+                    continue
+                prot = False
+                for p_ in parents(c_):
+                    if isinstance(p_, ast.Try) and any(c_ is x for b in p_.body for x in ast.walk(b)) and any(
+                            h.type is None or any(nm in unparse(h.type) for nm in (
+                                'LatexWalkerEndOfStream', 'LatexWalkerError', 'Exception')) for h in p_.handlers):
+                        prot = True
+                if q_ in EOS_REVIEWED and not prot:
+                    ctx.holds('R05j', mod_, c_, 'reviewed: ' + EOS_REVIEWED[q_], construct='%s: %s' % (q_, short(c_, 50)))
+                    continue
+                ctx.decide('R05j', prot, mod_, c_, '%s reads a token inside a handler for the end of the input' % q_,
+                           '%s reads a token (%s) outside any handler for LatexWalkerEndOfStream: when the input ends '
+                           'there the exception leaves the parser and parse_content() treats it as the regular end of '
+                           'the content -- the construct that was being parsed (an environment whose \\end is missing) '
+                           'is dropped without an error in strict mode' % (q_, short(c_, 50)),
+                           construct='%s: %s' % (q_, short(c_, 50)))
+
+    # ---- R05k
+    ctx.rule('R05k', 'the error classes never index the source string at the error position without an in-range fact '
+                     '(errors at the end of the input are at len(s))', 0)
+    error_text_indexing(ctx, 'R05k', repo)
+
     return 'other', (
         'Exception-escape analysis (least fixpoint over the resolved call graph, strict '
         'configuration) of LatexWalker.parse_content over every parser class: each escaping '
@@ -421,3 +481,32 @@ def _r20a_only(sub, repo, w):
         def decide(self, rule, *a, **k):
             return self.ctx.decide(self._rule, *a, **k) if self._keep(rule) else None
     c20.run(Filter(sub.ctx, sub._rule))
+
+
+
+def error_text_indexing(ctx, rule, repo):
+    """error objects are built for positions 0..len(s) (an error at the very end of the input is at
+    len(s)): the code that builds or formats them may slice the source string but must not index
+    it at the error position without an in-range fact"""
+    em = repo.mod('pylatexenc.latexnodes._exctypes')
+    n = 0
+    for q, f in sorted(em.functions.items()):
+        for x in iter_own(f):
+            if not (isinstance(x, ast.Subscript) and isinstance(x.ctx, ast.Load) and not isinstance(x.slice, ast.Slice)):
+                continue
+            base = unparse(x.value)
+            if not (base == 's' or base.endswith('.s')):
+                continue
+            idx = unparse(x.slice)
+            if not ('pos' in idx):
+                continue
+            n += 1
+            facts = [(unparse(t), pol) for t, pol in atomic_facts(x)]
+            guarded = any(pol and t.replace(' ', '') in ('%s<len(%s)' % (idx.replace(' ', ''), base),) for t, pol in facts)
+            ctx.decide(rule, guarded, em, enclosing_stmt(x) or x, 'indexed under %s < len(%s)' % (idx, base),
+                       '%s indexes the source string at the error position (%s): errors at the very end of the input '
+                       '(a lone trailing backslash, an unterminated verbatim argument) have pos == len(s), so building '
+                       'or formatting the error raises IndexError -- which is not a parse error and escapes tolerant '
+                       'parsing too' % (q, short(x, 40)), construct='%s: %s' % (q, short(x, 40)))
+    ctx.holds(rule, em, None, '%d index expression(s) on the source string in the error classes' % n,
+              construct='error text indexing scan', trivial=True)
